@@ -374,7 +374,6 @@ func (r *rxRunner) runReader(id int, resp []byte, cuts []int, chunks []int, mode
 	return nil
 }
 
-
 var errCb = errors.New("callback failed")
 
 // consumeUntil consumes the current response with NextPackageUntil and a scripted callback.
@@ -991,7 +990,10 @@ func rxMain(args []string) error {
 		for _, steps := range scns {
 			// split into rounds
 			type round struct {
-				abs   []struct{ K string `json:"k"`; N int `json:"n"` }
+				abs []struct {
+					K string `json:"k"`
+					N int    `json:"n"`
+				}
 				sends []int // bytes per packet of the model's packetisation; 0 = header-only packet
 			}
 			var rounds []round
@@ -1229,9 +1231,9 @@ func rxMain(args []string) error {
 			for j := range one {
 				one[j] = 1
 			}
-			parts = append(parts, nil)     // a single read
-			parts = append(parts, one)     // one byte at a time
-			for h := 1; h <= 7; h++ {      // split inside the first header
+			parts = append(parts, nil) // a single read
+			parts = append(parts, one) // one byte at a time
+			for h := 1; h <= 7; h++ {  // split inside the first header
 				parts = append(parts, []int{h})
 			}
 			if len(cs) > 0 { // split inside the second header
@@ -1334,7 +1336,6 @@ func rxMain(args []string) error {
 		}
 	}
 
-
 	for i := 0; i < *nreqresp; i++ {
 		if r.lates >= 6 {
 			break
@@ -1379,6 +1380,9 @@ func rxMain(args []string) error {
 			var abs []struct {
 				K string `json:"k"`
 				N int    `json:"n"`
+			}
+			if r.lates >= 6 {
+				break // enough calls ran into the watchdog: the trace so far decides
 			}
 			for _, k := range sc.Body {
 				abs = append(abs, struct {
